@@ -35,6 +35,8 @@ POOL_LABEL = {"confuse": "texts that coincide under white-space / case normalisa
               "nest": "by-functions and map inside the expression reference of a by-function",
               "errpair": "two failing sub-expressions (type / arity / unknown function / zero step) under every binary construct: the first failure wins",
               "deep": "every nesting constructor at depths 1..8 on a document nested to match",
+              "keyword": "field names spelled like keywords (true, false, null, and, or, not, in) in every operand position",
+              "litop": "every postfix operator, comparison and call applied directly to a literal operand",
               "compose": "every built-in on what the any-typed built-ins pass through (expression references inside containers included)"}
 
 
@@ -73,7 +75,11 @@ def run(prop, tier, seed, work, ev):
     gen(work, "chains", c, n=t["chains"])
     rejects += run_and_judge("operator chains: primary + every sequence of <= %d postfix operators x 3 nested documents" % t["chains"],
                              c, work, ev, drv, docs=c + ".docs")
-    rejects += pool_families(["confuse", "bool", "inflate", "alias", "hash", "nest", "errpair", "deep"], work, ev, drv)
+    c = work.path("preds.cases")
+    gen(work, "preds", c)
+    rejects += run_and_judge("filter predicates that are chains themselves (projection then pipe / index / field; inner predicates true for null), also under '!' and followed by one more link",
+                             c, work, ev, drv, docs=c + ".docs", nsamples=1)
+    rejects += pool_families(["confuse", "bool", "inflate", "alias", "hash", "nest", "errpair", "deep", "keyword", "litop"], work, ev, drv)
     params = work.path("rand.in")
     e = dict(os.environ, GEN_MAXLEN=str(t["maxlen"]))
     subprocess.check_call([drv, "gen", "eval", str(seed), str(t["rand"]), params], env=e)
